@@ -305,6 +305,14 @@ func clkRnd() uint64 {
 	return z ^ (z >> 31)
 }
 
+// isTaskHook reports whether the caller is the simulated task that holds the token.
+//
+//go:norace
+func isTaskHook() bool {
+	cur := sCur
+	return sActive && cur >= 0 && cur < maxTasks && getg() == sTaskG[cur]
+}
+
 // sleepHook is the tree's time.Sleep: for the task that holds the token simulated time passes (bounded like the
 // jumps) and somebody else gets to run; any other goroutine is told to sleep for real.
 //
